@@ -1,16 +1,71 @@
 """C10 — queues tail-drop exactly on overflow, conserve packets, spare control packets."""
+import os, time
+import vlib
 from props.common import ScenarioCheck
-from props.c09 import TRUSTED, ASSUME, gen, nontrivial
+from props.c09 import TRUSTED, ASSUME, gen, nontrivial, _extra_cov
 from specs import queue as spec
+import net_gen
 
 def spec_c10(impl, scn):
     f9, f10, st = spec.check(impl, scn)
     return f10
 
+RULE1 = "same direct-drive generator as C09 (capacities 0, < 1 packet, exact multiples of the packet size so that held+size == capacity and == capacity+1 both occur, large; overload bursts of mixed droppable/undroppable packets with and without drop callback; multi-hop); checked: drop iff droppable and capacity>0 and held+size>capacity with held reconstructed from the trace, every packet forwarded xor dropped exactly once and unaltered (type, length, overhead, payload digest, byte counter, error code, sender, callback presence), drop callback exactly once at the drop instant with the packet intact"
+
 CHECK = ScenarioCheck(
-    "C10", ["SimVerif.Props.C10"], "kernel", gen.generate, spec_c10, nontrivial,
-    "same direct-drive generator as C09 (capacities 0, < 1 packet, exact multiples of the packet size so that held+size == capacity and == capacity+1 both occur, large; overload bursts of mixed droppable/undroppable packets with and without drop callback; multi-hop); checked: drop iff droppable and capacity>0 and held+size>capacity with held reconstructed from the trace, every packet forwarded xor dropped exactly once and unaltered, drop callback exactly once at the drop instant",
+    "C10", ["SimVerif.Props.C10"], "kernel", gen.generate, spec_c10, nontrivial, RULE1,
     TRUSTED, ASSUME, spec_scn=True)
+CHECK.extra_cov = _extra_cov
+
+# ---- stage 2: the queues of whole simulations under real TCP / UDP traffic -------------------------
+
+def gen2(seed, tier):
+    n = 120 if tier == "quick" else 4000
+    out = net_gen.generate(seed * 11 + 1, tier, "tcp_heavy", n // 2) + net_gen.generate(seed * 11 + 2, tier, "udp", n // 4) \
+        + net_gen.generate(seed * 11 + 3, tier, "mixed", n // 4)
+    return [spec.add_link_probes(s) for s in out]
+
+def spec_links(impl, scn):
+    return spec.check_links(impl, scn)[0]
+
+def _extra_cov2(results):
+    tot, scn = {}, {}
+    for i, r in results.items():
+        try: st = spec.check_links(r["impl"] or [], r["scn"])[1]
+        except Exception: continue
+        for k, v in st.items():
+            tot[k] = tot.get(k, 0) + v
+            if v: scn[k] = scn.get(k, 0) + 1
+    return dict(link_counters=tot, link_counters_scenarios=scn)
+
+RULE2 = "whole simulations (gen/net_gen.py families tcp_heavy, udp, mixed: handshakes, segments with TCP's own drop callback, ACKs, retransmissions, resets / EOF packets carrying error codes and byte counters, UDP datagrams without callback) in which every access queue and the network queue is wrapped by a probe on either side: a droppable packet arriving at held+size > capacity > 0 never leaves the queue, every other packet leaves it exactly once and field for field unaltered, nothing it did not hold leaves it, nothing is left inside after a quiescent return of run(); the world model predicts every probe line"
+
+LINKS = ScenarioCheck("C10", ["SimVerif.Props.C10"], "kernel", gen2, spec_links, nontrivial, RULE2,
+    TRUSTED, ASSUME, spec_scn=True)
+LINKS.extra_cov = _extra_cov2
 
 def run(tier, seed, replay):
-    return CHECK.run(tier, seed, replay)
+    if replay:
+        txt = open(replay).read()
+        return (LINKS if "route net" in txt else CHECK).run(tier, seed, replay)
+    if os.environ.get("VERIF_DUMP_SCN"):
+        # tools/coverage.py: one dump file per property, holding the scenarios of both stages
+        both = ScenarioCheck("C10", ["SimVerif.Props.C10"], "kernel", lambda s, t: gen.generate(s, t) + gen2(s, t),
+                             None, nontrivial, RULE1, TRUSTED, ASSUME)
+        return both.run(tier, seed, None)
+    t0 = time.time()
+    rc1 = CHECK.run(tier, seed, None, write=False); cov1, v1, _ = CHECK.last
+    if rc1:
+        # already decided (and stage 2 would clear the replay just written)
+        vlib.write_evidence("C10", tier, seed, cov1, ASSUME, time.time() - t0, v1)
+        return 1
+    rc2 = LINKS.run(tier, seed, None, write=False); cov2, v2, _ = LINKS.last
+    cov = dict(cov1)
+    for k in ("evaluations", "distinct_nontrivial", "traces_validated_against_impl", "labels_compared", "mismatches", "spec_failures", "crashes"):
+        cov[k] = cov1[k] + cov2[k]
+    cov["rule"] = "stage 1 (direct drive): " + cov1["rule"] + " | stage 2 (real traffic): " + cov2["rule"]
+    cov["samples"] = cov1["samples"][:1] + cov2["samples"][:1]
+    for k in ("link_counters", "link_counters_scenarios"):
+        if k in cov2: cov[k] = cov2[k]
+    vlib.write_evidence("C10", tier, seed, cov, ASSUME, time.time() - t0, v1 + v2)
+    return 1 if (rc1 or rc2) else 0
